@@ -197,6 +197,12 @@ def decide(pid, tier, seed):
                 x["reshaped"] = True
         if any(x.get("reshaped") for x in fails):
             notes.append("control flow of %s changed and its proof script is tied to the old shape: failed obligations there count as undecided unless a failing input is found" % ", ".join(reshaped))
+    base_out = load_baseline().get("outside", {})
+    cur_out = outside_hashes(g)
+    for item, props_ in OUTSIDE_WATCH.items():
+        if item in base_out and cur_out.get(item) != base_out[item]:
+            fails.append({"function": item, "obligation": "%s changed (outside the verified text: formatting is beyond the verifier; decided by the witness step only)" % item,
+                          "props": props_, "specific": False, "line": 0, "message": "token hash %s, baseline %s" % (cur_out.get(item), base_out[item]), "rendered": ""})
     # derive lists the contracts rely on (derived Clone/PartialEq/Eq/Copy/Default taken with their std meaning)
     for tname, d in sorted(g["splice"].get("derives_changed", {}).items()):
         lost_tr = sorted(set(d["contracts"]) - set(d["repo"]))
@@ -429,6 +435,21 @@ def load_baseline():
     return {"functions": {}}
 
 
+def outside_hashes(g):
+    """token hashes of the items the extraction drops (they are outside the verified text)"""
+    out = {}
+    for d in g["extraction"]["dropped_items"]:
+        if " #" in d:
+            k, h = d.rsplit(" #", 1)
+            out[k] = h
+    return out
+
+
+# dropped items that a property statement mentions: a change there cannot be decided by the verifier; it is
+# handed to the witness step (and stays undecided if that finds nothing)
+OUTSIDE_WATCH = {"id.rs: impl Display for NodeId": ["C11"]}
+
+
 def fn_hashes(g):
     out = {}
     for it in g["extraction"]["items"]:
@@ -473,6 +494,7 @@ def write_baseline():
         if f["mode"] != "spec" and not f["external_body"]:
             key = [k for k in fb if k.endswith("::" + f["name"])]
             out["functions"].setdefault(f["name"], {}).update({"discharged": True, "rlimit": fb[key[0]]["rlimit"] if key else None})
+    out["outside"] = outside_hashes(g)
     json.dump(out, open(os.path.join(VERIF, "contracts", "baseline.json"), "w"), indent=1, sort_keys=True)
     print("baseline written: %d functions" % len(out["functions"]))
     return 0
